@@ -154,7 +154,11 @@ def check_truncate(ctx):
         not_single = any('String.Single' in e and not pol for e, pol in facts)
         if v_stores:
             s, v = v_stores[-1]
-            longer = any(pol and e.replace(' ', '') == 'len(inner)>self.width' for e, pol in facts)
+            inner_names = {n_.value.value.id for n_ in ast.walk(s.value) if isinstance(n_, ast.Subscript) and isinstance(n_.value, ast.Name)
+                           and isinstance(n_.slice, ast.Slice) and src(n_.slice.upper or ast.Constant(value=None)) == 'self.width'} if False else \
+                {n_.value.id for n_ in ast.walk(s.value) if isinstance(n_, ast.Subscript) and isinstance(n_.value, ast.Name)
+                 and isinstance(n_.slice, ast.Slice) and n_.slice.upper is not None and src(n_.slice.upper) == 'self.width'}
+            longer = any(pol and e.replace(' ', '') in {f'len({nm})>self.width' for nm in inner_names} for e, pol in facts)
             shape, why = truncation_shape(v, vv)
             ok = ok and shape and longer and not not_single
             detail = f'`{src(s)}` = {src(v)[:90]}; {why}; guard len(inner) > self.width: {longer}; on the String.Single path: {not not_single}'
@@ -250,7 +254,8 @@ def check_strip_comments(ctx, T):
                 a = v.args[1]
                 if dom.ws_only(a, git):
                     good = True
-                elif isinstance(a, ast.Subscript) and 'groups()' in src(a):
+                elif (isinstance(a, ast.Subscript) and 'groups()' in src(a)) or (
+                        isinstance(a, ast.Call) and isinstance(a.func, ast.Attribute) and a.func.attr == 'group'):
                     # group of re.search(<pattern of line breaks>, token.value)
                     pats = [n.args[0].value for n in own_nodes(git.node) if isinstance(n, ast.Call) and src(n.func) in ('re.search', 're.match')
                             and isinstance(n.args[0], ast.Constant)]
